@@ -207,3 +207,60 @@ def r_index_padding_count(prog: Program, col: Collector, refs: Refs, cat: Catalo
                   (f"for a tensor with {bad[0]} event dims indexed at offset {bad[1]} the index array gets {bad[2]} unit axes instead of {bad[0] - 1}: it then broadcasts against "
                    "the wrong dimensions of the result (a batch dim of the index is paired with an event dim of the indexed tensor)") if bad else "", f.loc(pads[0][0]))
     col.cur.analysed["tensor_by_tensor_indexing_kernels"] = n
+
+
+AXIS_LIKE = {"axis", "dim", "dims", "dim1", "dim2", "axis1", "axis2", "source", "destination"}
+
+
+def r_axis_params_rebased(prog: Program, col: Collector, refs: Refs, cat: Catalogue, rule: str):
+    """A unary op with an axis-like parameter counts dims of its operand's OUTPUT shape; the array of a Tensor has the batch inputs in
+    front.  Every such op is therefore evaluated on a Tensor either by a registered rule for (Unary, <its class or an ancestor>,
+    Tensor) that reads the op (the ReductionOp rule re-bases `axis`), or by the generic Tensor.eager_unary after the parameter has
+    been re-based - which is decided by table coverage: every axis-like parameter name of every uncovered op must be among the
+    names the re-basing helper handles."""
+    col.rule(rule, "every axis-like parameter of a unary op is re-based before the op is applied to a batched array", floor=15)
+    covered_refs = set()
+    for reg in cat.registrations:
+        if reg.target is None or len(reg.pattern) < 3 or not reg.registry.startswith("funsor.interpretations."):
+            continue
+        pats = [refs.resolve(p) if isinstance(p, (ast.Name, ast.Attribute)) else None for p in reg.pattern]
+        if pats[0] == "funsor.terms.Unary" and pats[2] == "funsor.tensor.Tensor":
+            ref = cat.op_class_ref(pats[1])
+            if ref is not None:
+                covered_refs.add(ref)
+    covered_ops = {o.fq for ref in covered_refs for o in cat.ops_under(ref)}
+    eu = prog.funcs.get("funsor.tensor::Tensor.eager_unary")
+    if eu is None:
+        raise AnalysisError("anchor Tensor.eager_unary not found")
+    # the names handled on the generic path: string constants of eager_unary and of the helpers it calls with the op
+    handled = set()
+    todo, seen = [eu], set()
+    while todo:
+        g = todo.pop()
+        if g.fq in seen:
+            continue
+        seen.add(g.fq)
+        for x in ast.walk(g.node):
+            if isinstance(x, ast.Constant) and isinstance(x.value, str):
+                handled.add(x.value)
+            if isinstance(x, ast.Name):
+                lk = prog.lookup(refs.resolve(x) or "")
+                if lk and lk[0] == "value" and isinstance(lk[2], (ast.Tuple, ast.List, ast.Set)):
+                    handled |= {e.value for e in lk[2].elts if isinstance(e, ast.Constant) and isinstance(e.value, str)}
+            if isinstance(x, ast.Call) and isinstance(x.func, ast.Name):
+                lk = prog.lookup(refs.resolve(x.func) or "")
+                if lk and lk[0] == "func" and lk[1].module is g.module:
+                    todo.append(lk[1])
+    for o in sorted(cat.ops.values(), key=lambda o_: o_.fq):
+        axes = sorted(set(o.params) & AXIS_LIKE)
+        if not axes or "funsor.ops.op.UnaryOp" not in cat.op_ancestors(o.fq):
+            continue
+        construct = f"{o.fq}::{', '.join(axes)}"
+        if o.fq in covered_ops:
+            col.ok(construct, "evaluated by a registered Tensor rule for its op class", o.module.loc(o.node), nontrivial=False)
+            continue
+        missing = [a for a in axes if a not in handled]
+        col.check(not missing, construct, "re-based by the generic Tensor path before the op is applied",
+                  f"`{o.var}` has the axis-like parameter(s) {missing}, no eager rule for Tensor covers its op class, and the generic Tensor.eager_unary applies it to the raw array "
+                  "without re-basing them: a non-negative axis then addresses a batch input instead of an output dim (x.argmax(0), ops.flip(x, 0) on a tensor with inputs)",
+                  o.module.loc(o.node))
